@@ -16,7 +16,8 @@ RULE = ('case idx -> protection mode (10 suites) x version x kind {5 plain sessi
         'accepted one must complete a handshake and exchange data exactly, the minimum itself must be accepted; every offered region is '
         'checked against the caller block after each call; minimum-size servers of every layout also face a full-size client that sends a '
         'certificate chain larger than the whole server input buffer in one unencrypted record (taken in pieces). reuse: one client context reset and used for four connections (with / without resumption) against servers that echo the extension and servers that do not, in six orders: after each handshake the negotiated flag equals the presence of the extension in that ServerHello; one server context (with / without session cache) reset for four clients of different buffer classes in four orders: no extension without a request, echo equal to the request of that connection, records within the limit of that connection and full-size again without one. distinct = (mode, version, client layout/limit, '
-        'server layout/limit, echoed code) tuples.')
+        'server layout/limit, echoed code) tuples.'
+        ' session: a limited client makes a full handshake, resumes the session on the same contexts (server with a cache) and renegotiates: in each of the three handshakes the request is sent and echoed, the flag follows, and no server record after a ServerHello exceeds the length, abbreviated handshake and renegotiated keys included. Buffers far above the optimum (32 KiB .. 1 MiB) and two buffers of different classes are part of the session mix.')
 ASSUMPTIONS = [
     'for the engine-split single buffer the caller cannot know the split point, so exact-fit checks use the shared and two-buffer layouts',
     'a server that does not echo but keeps its records within the requested length is accepted (the property demands honouring, not echoing)',
@@ -26,7 +27,8 @@ EVAL = ['cases']
 DISTINCT = ['config', 'tiny_outcome', 'reuse_step', 'server_reuse_step']
 REQUIRED = ['cases', 'sessions_completed', 'sessions_with_mfl', 'sessions_without_mfl', 'cmp_client_request', 'cmp_negotiated_flag',
             'records_measured', 'forged_max_records', 'forged_fit_records', 'forged_oversize_records', 'mitm_rewrite_applied',
-            'mitm_delete_applied', 'server_used_full_fragment', 'tiny_refused', 'tiny_streams_exact', 'small_server_sessions', 'reuse_flag_matches', 'server_reuse_ok']
+            'mitm_delete_applied', 'server_used_full_fragment', 'tiny_refused', 'tiny_streams_exact', 'small_server_sessions', 'reuse_flag_matches', 'server_reuse_ok',
+            'session_mfl_steps_ok', 'session_mfl_resumed', 'huge_buffer_cases', 'asymmetric_buffer_cases']
 NW = 16
 
 
